@@ -14,6 +14,10 @@ pub const K6: &str = "c15.negative_zero_time";
 pub struct Doc {
     /// format version of the header line (map-level processing does not depend on it)
     pub ver: i32,
+    /// section order: 0 canonical; 1 [Difficulty] after [HitObjects]; 2 a first [Difficulty] with another multiplier in
+    /// the canonical place and the effective one after [HitObjects]; 3 [TimingPoints] after [HitObjects];
+    /// 4 [Events] after [HitObjects] (map-level processing happens after the whole file has been read)
+    pub order: u8,
     pub mode: u8,
     pub sm: &'static str,
     /// (time, rest of the line)
@@ -37,17 +41,29 @@ fn sh(t: f64, k: f64) -> f64 {
 }
 
 pub fn render(d: &Doc, k: f64) -> String {
-    let mut s = format!("osu file format v{}\n\n[General]\nMode: {}\n\n[Difficulty]\nSliderMultiplier:{}\n\n[Events]\n", d.ver, d.mode, d.sm);
+    let mut s = format!("osu file format v{}\n\n[General]\nMode: {}\n", d.ver, d.mode);
+    let difficulty = format!("\n[Difficulty]\nSliderMultiplier:{}\n", d.sm);
+    let mut events = String::from("\n[Events]\n");
     for (a, b) in &d.breaks {
-        s.push_str(&format!("2,{},{}\n", ft(sh(*a, k)), ft(sh(*b, k))));
+        events.push_str(&format!("2,{},{}\n", ft(sh(*a, k)), ft(sh(*b, k))));
     }
-    s.push_str("\n[TimingPoints]\n");
+    let mut timing = String::from("\n[TimingPoints]\n");
     for (t, rest) in &d.tps {
-        s.push_str(&format!("{},{rest}\n", ft(sh(*t, k))));
+        timing.push_str(&format!("{},{rest}\n", ft(sh(*t, k))));
     }
-    s.push_str("\n[HitObjects]\n");
+    let mut objects = String::from("\n[HitObjects]\n");
     for (t, e, pre, rest) in &d.objs {
-        s.push_str(&format!("{pre},{},{}\n", ft(sh(*t, k)), rest.replace("{E}", &e.map_or(String::new(), |e| ft(sh(e, k))))));
+        objects.push_str(&format!("{pre},{},{}\n", ft(sh(*t, k)), rest.replace("{E}", &e.map_or(String::new(), |e| ft(sh(e, k))))));
+    }
+    match d.order {
+        1 => { s.push_str(&events); s.push_str(&timing); s.push_str(&objects); s.push_str(&difficulty); }
+        2 => {
+            s.push_str(if d.sm == "0.7" { "\n[Difficulty]\nSliderMultiplier:2.3\n" } else { "\n[Difficulty]\nSliderMultiplier:0.7\n" });
+            s.push_str(&events); s.push_str(&timing); s.push_str(&objects); s.push_str(&difficulty);
+        }
+        3 => { s.push_str(&difficulty); s.push_str(&events); s.push_str(&objects); s.push_str(&timing); }
+        4 => { s.push_str(&difficulty); s.push_str(&timing); s.push_str(&objects); s.push_str(&events); }
+        _ => { s.push_str(&difficulty); s.push_str(&events); s.push_str(&timing); s.push_str(&objects); }
     }
     s
 }
@@ -144,7 +160,7 @@ pub fn gen_doc(t: &mut Tape) -> Doc {
             objs.push((time, None, format!("{x},100"), format!("1,{}", t.below(16))));
         }
     }
-    Doc { ver: 14, mode, sm, tps, breaks, objs }
+    Doc { ver: 14, order: 0, mode, sm, tps, breaks, objs }
 }
 
 fn close(a: f64, b: f64) -> bool {
@@ -375,6 +391,7 @@ pub fn classify_k6(d: &Doc, k: f64) -> bool {
 pub fn gen_case(t: &mut Tape) -> (Doc, f64) {
     let (mut d, k) = gen_case_v14(t);
     d.ver = *t.pick(VERSIONS);
+    d.order = *t.pick(&[0u8, 0, 0, 0, 1, 2, 3, 4]);
     (d, k)
 }
 
@@ -447,6 +464,12 @@ pub fn run(ctx: &mut Ctx) {
                 }
                 if !d.breaks.is_empty() {
                     st.label("has break");
+                }
+                if d.ver != 14 {
+                    st.label("format version != 14");
+                }
+                if d.order != 0 {
+                    st.label("non-canonical section order");
                 }
                 Ok(())
             }
